@@ -294,7 +294,7 @@ func (w *World) Replay(ob *Obligation, repo string) *ReplayResult {
 		if !strings.HasPrefix(base, pk.Name+".") {
 			continue
 		}
-		texpr := strings.Replace(tkey, pk.Name+".", "", 1)
+		texpr := strings.ReplaceAll(tkey, pk.Name+".", "")
 		texpr = strings.ReplaceAll(texpr, "[]byte", "[]byte")
 		v := fmt.Sprintf("t%d", len(asLines))
 		line := fmt.Sprintf("\t\tvar %s %s\n\t\tas[%q] = errors.As(err, &%s)", v, texpr, tkey, v)
